@@ -134,6 +134,7 @@ class RawActor:
         self.acks = []  # message types acknowledged with ok True
         self.refused = []  # message types answered with ok False
         self.results = []  # raw result contents
+        self.replies = []  # ('ack'|'refused'|'result', type) in arrival order
         self.got = asyncio.Event()
         self.closed_seen = False
         self.rx = None
@@ -161,9 +162,11 @@ class RawActor:
                     c = pickle.loads(d["content"])
                     if c.get("ok"):
                         self.acks.append(t)
+                        self.replies.append(("ack", t))
                         self.run.ev("c_ack", self.name, t)
                     else:
                         self.refused.append(t)
+                        self.replies.append(("refused", t))
                         self.run.ev("c_refused", self.name, t)
                 elif t == "result":
                     c = d["content"]
@@ -175,9 +178,11 @@ class RawActor:
                         pass
                     if isref:
                         self.refused.append(t)
+                        self.replies.append(("refused", t))
                         self.run.ev("c_refused", self.name, t)
                     else:
                         self.results.append(c)
+                        self.replies.append(("result", c))
                         self.run.ev("c_result", self.name, len(c))
                 self.got.set()
         except Exception:
